@@ -267,7 +267,7 @@ m = {
          "serves_properties": ["C03", "C04", "C05", "C06", "C07", "C11"]},
         {"name": "selftest", "path": "tools/selftest.py", "kind_free_text": "binding demonstration: every mutants/*.diff and seeded/*/patch.diff must be reported (exit 1), every benign/*/patch.diff (behaviour-preserving change) must stay quiet (exit 0); not part of any registered command",
          "serves_properties": sorted(CHECKS)},
-        {"name": "growth-modules", "path": "tools/props/x0*.py", "kind_free_text": "specifications beyond the listed properties, same four-file pattern, ./check X01..X04: Ratelimit, Misc (regdump/enum/stats), Rgb (cross-fade, gamma), RfString",
+        {"name": "growth-modules", "path": "tools/props/x0*.py", "kind_free_text": "specifications beyond the listed properties, same four-file pattern, ./check X01..X05: Ratelimit, Misc (regdump/enum/stats), Rgb (cross-fade, gamma), RfString, Fuzz (approximate comparisons)",
          "serves_properties": []},
     ],
     "checks": [],
